@@ -67,6 +67,20 @@ let optrt toks =
              (List.length enc - List.length rest) (int_of_z d') (hex_of_bytes v'))
   | _ -> failwith "optrt args"
 
+(* psize <proto> <bytes> : coap_pdu_parse_size *)
+let psize toks =
+  match toks with
+  | [pr; b] ->
+      let bs = bytes_of_tok b in
+      let p = proto_of_string pr in
+      (match bs with
+       | [] -> "short"
+       | b0 :: _ ->
+           if int_of_z (header_size p b0) > List.length bs then "short"
+           else string_of_int (int_of_z (fr_parse_size p bs)))
+  | _ -> failwith "psize args"
+
 let () =
+  register "psize" psize;
   register "optrt" optrt;
   register "c01" c01; register "c03" c03; register "optparse" optparse; register "optenc" optenc
